@@ -74,6 +74,9 @@ class Renderer(object):
         self.names = names or {}
         self.dialect = dialect or prog.get("render_opts", {}).get("dialect") or "axllib"
         self.D = DIALECTS[self.dialect]
+        # local SingleInteger variables held as Pointer (`v: Pointer := e pretend Pointer`, read as `v pretend SI`): the same
+        # program for the language definition, a different representation for the optimiser (copies through casts)
+        self.ptrvars = set(prog.get("render_opts", {}).get("ptrvars", []))
 
     def nm(self, x):
         return self.names.get(x, x)
@@ -132,6 +135,8 @@ class Renderer(object):
         if e == "unit":
             return "()"
         if e == "var":
+            if x["x"] in self.ptrvars:
+                return "(%s pretend SI)" % self.nm(x["x"])
             return self.nm(x["x"])
         if e == "prim":
             op = x["op"]
@@ -182,6 +187,8 @@ class Renderer(object):
         if e == "exit":
             return "(%s) => %s" % (self.ex(x["c"]), self.ex(x["v"]))
         if e == "asg":
+            if x["x"] in self.ptrvars:
+                return "%s := ((%s) pretend Pointer)" % (self.nm(x["x"]), self.ex(x["v"]))
             return "%s := %s" % (self.nm(x["x"]), self.ex(x["v"]))
         if e == "let":
             # only at the head of a body: flattened by body()
@@ -354,7 +361,10 @@ class Renderer(object):
         """A body: a chain of lets followed by an expression; rendered as declarations; expression."""
         out = []
         while x.get("e") == "let":
-            out.append("%s: %s := %s" % (self.nm(x["x"]), tname(x["t"]), self.ex(x["v"])))
+            if x["x"] in self.ptrvars:
+                out.append("%s: Pointer := ((%s) pretend Pointer)" % (self.nm(x["x"]), self.ex(x["v"])))
+            else:
+                out.append("%s: %s := %s" % (self.nm(x["x"]), tname(x["t"]), self.ex(x["v"])))
             x = x["body"]
         if x.get("e") == "seq":
             out.append(self.seq_items(x["es"]))
